@@ -203,6 +203,66 @@ def ev_out(ev):
     return None
 
 
+class ExtDispatcher:
+    """a minimal conforming external dispatcher (the interface WrappedDispatcher uses: read, timeout, signal,
+    abort, buffwrite) with an event loop `dispatch()` that runs under the virtual-time scheduler:
+    readable sockets call their read callback (a falsy result unregisters it), timers fire at their tick
+    (a truthy result re-arms them, as in `rel`)."""
+
+    def __init__(self, sched):
+        self.s = sched
+        self.readers = {}
+        self.timers = []
+        self.seq = 0
+        self.stopped = False
+
+    def read(self, sock, callback):
+        self.readers[id(sock)] = (sock, callback)
+
+    def timeout(self, seconds, callback, *args):
+        self.seq += 1
+        d = simsched.ticks_of(seconds)
+        if getattr(callback, "__name__", "") == "setSock":
+            self.s.emit("sleep", d)
+        self.timers.append([self.s.now + d, self.seq, callback, args, d])
+
+    def signal(self, *a):
+        pass
+
+    def abort(self):
+        self.stopped = True
+
+    def buffwrite(self, sock, data, send, handle):
+        send(sock, data)
+
+    def _periodic_only(self):
+        return all(getattr(t[2], "__name__", "") == "check" for t in self.timers)
+
+    def dispatch(self):
+        while not self.stopped:
+            if not self.readers and self._periodic_only():
+                return
+            socks = [k for k, _ in self.readers.values()]
+            dl = min((t[0] for t in self.timers), default=None)
+
+            def nt():
+                c = [k.sim_next_time() for k in socks]
+                c = [x for x in c if x is not None]
+                return min(c) if c else None
+            self.s.block(lambda: any(k.sim_readable() for k in socks), dl, nt)
+            due = sorted([t for t in self.timers if t[0] <= self.s.now], key=lambda t: (t[0], t[1]))
+            for t in due:
+                self.timers.remove(t)
+                r = t[2](*t[3])
+                if r:
+                    t[0] = self.s.now + t[4]
+                    self.timers.append(t)
+            for key, (k, cb) in list(self.readers.items()):
+                if key in self.readers and k.sim_readable():
+                    if not cb():
+                        self.readers.pop(key, None)
+
+
 class Real:
     """outcome of one real scenario."""
     pass
@@ -255,7 +315,13 @@ def run_real(sc, line_preempt=None, wall_s=20.0, max_steps=6000):
         for run in sc["runs"]:
             net.begin_run(outcomes_of(run))
             try:
-                r = app.run_forever(**rf)
+                if sc.get("ext"):
+                    ext = ExtDispatcher(s)
+                    app.run_forever(dispatcher=ext, **rf)
+                    ext.dispatch()
+                    r = app.has_errored
+                else:
+                    r = app.run_forever(**rf)
                 alive.append([t.name for t in s.threads if t.state != "dead" and t is not s.current
                               and t.name != "closer"])
                 # a close() still in progress in another thread finishes its work (it releases the transport)
